@@ -117,6 +117,17 @@ def explore(ctx, scale=1.0):
             gen.add_item(rng, b, k, sh, 1)
             if b.items:
                 docs.append((gen.render(b), f"cell:{sh[0]}"))
+            if sh[0] == "string":
+                # every string-valued keyword also with the contents a printer most easily gets wrong
+                for forced in ("", "7", "big city", "END"):
+                    gen.FORCE_STRING = forced
+                    try:
+                        b = gen.Block(t)
+                        gen.add_item(rng, b, k, sh, 1)
+                    finally:
+                        gen.FORCE_STRING = None
+                    if b.items:
+                        docs.append((gen.render(b), "cell:string:" + (forced or "empty").replace(" ", "-")))
     for i in range(int((3000 if ctx.thorough else 150) * scale)):
         b = gen.gen_block(rng, rng.choice(gen.BLOCK_TYPES + ["map", "layer", "class"]), depth=rng.choice([1, 2, 3]), max_items=8)
         docs.append((gen.render(b, gen.Layout(rng, plain=rng.random() < .5)), "random"))
